@@ -83,7 +83,9 @@ Definition GraphInv (w : world) : Prop :=
   (forall ai a c d, arch_at w ai = Some a -> alookup c (a_ins a) = Some d ->
      ~ In c (a_comps a) /\ exists b, arch_at w d = Some b /\ a_comps b = sorted_insert c (a_comps a)) /\
   (forall ai a c d, arch_at w ai = Some a -> alookup c (a_rem a) = Some d ->
-     In c (a_comps a) /\ exists b, arch_at w d = Some b /\ a_comps b = filter (fun x => negb (x =? c)) (a_comps a)).
+     In c (a_comps a) /\ exists b, arch_at w d = Some b /\ a_comps b = filter (fun x => negb (x =? c)) (a_comps a)) /\
+  (* component lists are strictly sorted *)
+  (forall ai a, arch_at w ai = Some a -> StronglySorted N.lt (a_comps a)).
 
 (* ---------- create_arch ---------- *)
 Definition same_core (a b : arch) : Prop :=
@@ -183,6 +185,14 @@ Proof.
       replace (y =? c) with false by (symmetry; now apply N.eqb_neq). cbn. f_equal. apply IHt. intros X. apply Ht. now right.
     + replace (h =? c) with false by (symmetry; now apply N.eqb_neq). cbn. f_equal. apply IH, Ht.
 Qed.
+Lemma sorted_insert_sorted c l : StronglySorted N.lt l -> ~ In c l -> StronglySorted N.lt (sorted_insert c l).
+Proof.
+  induction l as [|h t IH]; intros Hs Hn; cbn; [repeat constructor|]. apply StronglySorted_inv in Hs as [Hs Hall].
+  assert (h <> c) by (intros ->; apply Hn; now left). destruct (c <? h) eqn:E.
+  - apply N.ltb_lt in E. constructor; [constructor; assumption|]. constructor; [exact E|]. rewrite Forall_forall in *. intros x Hx. specialize (Hall x Hx). lia.
+  - apply N.ltb_ge in E. constructor; [apply IH; [exact Hs|intros X; apply Hn; now right]|]. rewrite Forall_forall in *. intros x Hx.
+    apply sorted_insert_in in Hx as [->|Hx]; [lia|auto].
+Qed.
 Lemma sorted_insert_length c l : length (sorted_insert c l) = S (length l).
 Proof. induction l as [|h t IH]; cbn; [reflexivity|]. destruct (c <? h); cbn; [reflexivity|now rewrite IH]. Qed.
 
@@ -202,13 +212,20 @@ Proof.
   destruct (list_eqb N.eqb cs0 cs); reflexivity.
 Qed.
 
+Lemma aby_lookup_mono_app w0 x l cs ai : w_aby x = w_aby w0 ++ l -> aby_lookup w0 cs = Some ai -> aby_lookup x cs = Some ai.
+Proof.
+  unfold aby_lookup. intros -> H. rewrite find_app. destruct (find _ (w_aby w0)); [exact H|discriminate].
+Qed.
+Lemma aby_lookup_upd_arch w i f cs : aby_lookup (upd_arch w i f) cs = aby_lookup w cs.
+Proof. unfold upd_arch. destruct (slab_get (w_archs w) i); reflexivity. Qed.
+
 (* adding a cached insert transition src -c-> d *)
 Lemma GraphInv_add_ins_edge w src sa c d db :
   GraphInv w -> arch_at w src = Some sa -> ~ In c (a_comps sa) ->
   arch_at w d = Some db -> a_comps db = sorted_insert c (a_comps sa) ->
   GraphInv (upd_arch w src (fun a => set_edges a (ainsert c d (a_ins a)) (a_rem a))).
 Proof.
-  intros (Hs & Hb1 & Hb2 & Hi & Hr) Ha Hnin Hd Hdc. unfold upd_arch. unfold arch_at in Ha. rewrite Ha.
+  intros (Hs & Hb1 & Hb2 & Hi & Hr & Hso) Ha Hnin Hd Hdc. unfold upd_arch. unfold arch_at in Ha. rewrite Ha.
   set (sa' := set_edges sa (ainsert c d (a_ins sa)) (a_rem sa)).
   assert (Hat : forall j, arch_at (set_archs w (slab_set (w_archs w) src sa')) j = if j =? src then Some sa' else arch_at w j).
   { intros j. unfold arch_at. cbn [w_archs set_archs]. destruct (j =? src) eqn:E.
@@ -222,7 +239,7 @@ Proof.
   { intros j b0 Hj. rewrite Hat. destruct (j =? src) eqn:E.
     - apply N.eqb_eq in E. subst j. unfold arch_at in Hj. rewrite Ha in Hj. inversion Hj; subst. eauto.
     - eauto. }
-  unfold GraphInv. split; [cbn [w_archs set_archs]; eapply slab_set_inv; eauto|]. split; [|split; [|split]].
+  unfold GraphInv. split; [cbn [w_archs set_archs]; eapply slab_set_inv; eauto|]. split; [|split; [|split; [|split]]].
   - intros ai a Hai. destruct (Hcomp _ _ Hai) as (b0 & Hb0 & Hc0 & _). rewrite <- Hc0. unfold aby_lookup. cbn [w_aby set_archs]. exact (Hb1 _ _ Hb0).
   - intros cs ai Hl. assert (Hl' : aby_lookup w cs = Some ai) by exact Hl. destruct (Hb2 _ _ Hl') as (a0 & Ha0 & Hc0).
     destruct (Hlive _ _ Ha0) as (b & Hb & Hcb). exists b. split; [exact Hb|congruence].
@@ -238,6 +255,7 @@ Proof.
   - intros ai a c0 d0 Hai He. destruct (Hcomp _ _ Hai) as (b0 & Hb0 & Hc0 & Hr0 & _). rewrite <- Hr0 in He.
     destruct (Hr _ _ _ _ Hb0 He) as (Hn & b1 & Hb1' & Hc1). rewrite <- Hc0. split; [exact Hn|].
     destruct (Hlive _ _ Hb1') as (b & Hb & Hcb). exists b. split; [exact Hb|congruence].
+  - intros ai a Hai. destruct (Hcomp _ _ Hai) as (b0 & Hb0 & Hc0 & _). rewrite <- Hc0. eauto.
 Qed.
 
 Lemma abs_ext2 w w' : w_ents w' = w_ents w -> w_archs w' = w_archs w -> forall e c, abs w' e c = abs w e c.
@@ -253,7 +271,7 @@ Lemma GraphInv_create w src sa c :
   GraphInv (snd r) /\ fst r <> src /\ arch_at (snd r) src = Some sa /\
   exists a1, arch_at (snd r) (fst r) = Some a1 /\ a_comps a1 = sorted_insert c (a_comps sa) /\ a_rows a1 = [].
 Proof.
-  intros (Hs & Hb1 & Hb2 & Hi & Hr) Ha Hnin Hnone. cbn zeta.
+  intros (Hs & Hb1 & Hb2 & Hi & Hr & Hso) Ha Hnin Hnone. cbn zeta.
   set (cs := sorted_insert c (a_comps sa)) in *.
   destruct (create_arch_spec w cs [] [(c, src)]) as (a1 & (C1 & C2 & C3 & C4 & C5) & Hfst & Harchs & Hents & Haby).
   cbn [a_comps a_rows a_ins a_rem a_cap] in *.
@@ -266,7 +284,7 @@ Proof.
   { intros cs'. rewrite (aby_lookup_snoc w w1 cs d cs'); [reflexivity|]. rewrite Haby. now rewrite Hfst. }
   assert (Hdsrc : d <> src) by (intros E; eapply Hlive_ne; eauto).
   split; [|split; [exact Hdsrc|split]].
-  - unfold GraphInv. split; [now rewrite Harchs|]. split; [|split; [|split]].
+  - unfold GraphInv. split; [now rewrite Harchs|]. split; [|split; [|split; [|split]]].
     + intros ai a Hai. rewrite Hat in Hai. rewrite Hlook. destruct (ai =? d) eqn:E.
       * apply N.eqb_eq in E. subst ai. inversion Hai; subst a. rewrite C1. fold cs. rewrite Hnone.
         now replace (list_eqb N.eqb cs cs) with true by (symmetry; now apply list_eqb_N_spec).
@@ -287,6 +305,8 @@ Proof.
         unfold cs. now rewrite filter_sorted_insert.
       * destruct (Hr _ _ _ _ Hai He) as (Hn & b & Hb & Hc). split; [exact Hn|]. exists b. split; [|exact Hc].
         rewrite Hat. replace (d0 =? d) with false by (symmetry; apply N.eqb_neq; eapply Hlive_ne; eauto). exact Hb.
+    + intros ai a Hai. rewrite Hat in Hai. destruct (ai =? d) eqn:E; [|eauto]. inversion Hai; subst a. rewrite C1. unfold cs.
+      apply sorted_insert_sorted; [eapply Hso; eauto|exact Hnin].
   - rewrite Hat. replace (src =? d) with false by (symmetry; apply N.eqb_neq; auto). exact Ha.
   - exists a1. split; [rewrite Hat, N.eqb_refl; reflexivity|]. split; [exact C1|exact C2].
 Qed.
@@ -307,19 +327,20 @@ Theorem traverse_insert_ok w src sa c :
     (forall e k, abs w1 e k = abs w e k) /\ w_ents w1 = w_ents w /\
     (exists sa1, arch_at w1 src = Some sa1 /\ a_comps sa1 = a_comps sa /\ a_rows sa1 = a_rows sa) /\
     (In c (a_comps sa) -> d = src) /\
-    (~ In c (a_comps sa) -> d <> src /\ exists da, arch_at w1 d = Some da /\ a_comps da = sorted_insert c (a_comps sa)).
+    (~ In c (a_comps sa) -> d <> src /\ exists da, arch_at w1 d = Some da /\ a_comps da = sorted_insert c (a_comps sa)) /\
+    (forall cs ai, aby_lookup w cs = Some ai -> aby_lookup w1 cs = Some ai).
 Proof.
-  intros Hst Hg Ha. pose proof Hg as (Hs & Hb1 & Hb2 & Hi & Hr).
+  intros Hst Hg Ha. pose proof Hg as (Hs & Hb1 & Hb2 & Hi & Hr & Hso).
   unfold traverse_insert. unfold arch_at in Ha. rewrite Ha.
   destruct (alookup c (a_ins sa)) as [d|] eqn:Ee.
   - (* cached transition *)
     destruct (Hi _ _ _ _ Ha Ee) as (Hn & b & Hb & Hc).
     exists d, w. split; [reflexivity|]. split; [exact Hst|]. split; [exact Hg|]. split; [reflexivity|]. split; [reflexivity|].
-    split; [exists sa; auto|]. split; [intros X; contradiction|]. intros _. split; [|eauto].
+    split; [exists sa; auto|]. split; [intros X; contradiction|]. split; [|auto]. intros _. split; [|eauto].
     intros ->. unfold arch_at in Hb. rewrite Ha in Hb. inversion Hb; subst b. pose proof (sorted_insert_length c (a_comps sa)) as Hl. rewrite <- Hc in Hl. lia.
   - destruct (arch_has sa c) eqn:Eh.
     + apply arch_has_in in Eh. exists src, w. split; [reflexivity|]. split; [exact Hst|]. split; [exact Hg|]. split; [reflexivity|]. split; [reflexivity|].
-      split; [exists sa; auto|]. split; [reflexivity|]. intros X; contradiction.
+      split; [exists sa; auto|]. split; [reflexivity|]. split; [intros X; contradiction|auto].
     + assert (Hnin : ~ In c (a_comps sa)) by (intros X; apply arch_has_in in X; congruence).
       destruct (aby_lookup w (sorted_insert c (a_comps sa))) as [d|] eqn:El.
       * (* the archetype exists already: only the transition is cached *)
@@ -333,7 +354,7 @@ Proof.
         split; [intros e k; unfold upd_arch; rewrite Ha; eapply abs_replace; eauto|].
         split; [unfold upd_arch; rewrite Ha; reflexivity|].
         split; [eexists; split; [rewrite Hat, N.eqb_refl; reflexivity|split; reflexivity]|].
-        split; [intros X; contradiction|]. intros _. split; [exact Hds|]. exists db. split; [|exact Hdc].
+        split; [intros X; contradiction|]. split; [|intros cs0 ai0 X; now rewrite aby_lookup_upd_arch]. intros _. split; [exact Hds|]. exists db. split; [|exact Hdc].
         rewrite Hat. now replace (d =? src) with false by (symmetry; apply N.eqb_neq; exact Hds).
       * (* a new archetype is created *)
         destruct (GraphInv_create w src sa c Hg Ha Hnin El) as (Hg1 & Hds & Hsrc1 & a1 & Ha1 & Hc1 & Hr1).
@@ -351,6 +372,178 @@ Proof.
         split; [intros e k; unfold upd_arch; unfold arch_at in Hsrc1; rewrite Hsrc1; rewrite (abs_replace w1 src sa _ Hsrc1) by reflexivity; apply Habs1|].
         split; [unfold upd_arch; unfold arch_at in Hsrc1; rewrite Hsrc1; exact Hents|].
         split; [eexists; split; [rewrite Hat, N.eqb_refl; reflexivity|split; reflexivity]|].
-        split; [intros X; contradiction|]. intros _. split; [exact Hds|]. exists a1. split; [|exact Hc1].
+        split; [intros X; contradiction|]. split; [|intros cs0 ai0 X; rewrite aby_lookup_upd_arch; eapply aby_lookup_mono_app; [exact Haby|exact X]].
+        intros _. split; [exact Hds|]. exists a1. split; [|exact Hc1].
         rewrite Hat. now replace (d =? src) with false by (symmetry; apply N.eqb_neq; exact Hds).
+Qed.
+
+(* ---------- the remove direction ---------- *)
+Lemma filter_notin c l : ~ In c (filter (fun x => negb (x =? c)) l).
+Proof. intros H. apply filter_In in H as [_ H]. now rewrite N.eqb_refl in H. Qed.
+Lemma filter_length_le' {A} (p : A -> bool) l : (length (filter p l) <= length l)%nat.
+Proof. induction l as [|h t IH]; cbn; [lia|]. destruct (p h); cbn; lia. Qed.
+Lemma filter_length_lt c l : In c l -> (length (filter (fun x => negb (x =? c)) l) < length l)%nat.
+Proof.
+  induction l as [|h t IH]; intros H; [destruct H|]. cbn. destruct (h =? c) eqn:E; cbn.
+  - pose proof (filter_length_le' (fun x => negb (x =? c)) t). lia.
+  - destruct H as [->|H]; [rewrite N.eqb_refl in E; discriminate|]. specialize (IH H). lia.
+Qed.
+Lemma filter_sorted c l : StronglySorted N.lt l -> StronglySorted N.lt (filter (fun x => negb (x =? c)) l).
+Proof.
+  induction l as [|h t IH]; intros Hs; cbn; [constructor|]. apply StronglySorted_inv in Hs as [Hs Hall].
+  destruct (negb (h =? c)); [|auto]. constructor; [auto|]. rewrite Forall_forall in *. intros x Hx. apply filter_In in Hx as [Hx _]. auto.
+Qed.
+Lemma sorted_insert_filter c l : StronglySorted N.lt l -> In c l -> sorted_insert c (filter (fun x => negb (x =? c)) l) = l.
+Proof.
+  induction l as [|h t IH]; intros Hs Hin; [destruct Hin|]. apply StronglySorted_inv in Hs as [Hs Hall]. cbn [filter].
+  destruct (h =? c) eqn:E; cbn [negb].
+  - apply N.eqb_eq in E. subst h. (* c is the head: nothing else equals c, everything else is larger *)
+    assert (Hf : filter (fun x => negb (x =? c)) t = t).
+    { clear -Hall. induction t as [|y t IHt]; [reflexivity|]. inversion Hall; subst. cbn.
+      replace (y =? c) with false by (symmetry; apply N.eqb_neq; lia). cbn. f_equal. auto. }
+    rewrite Hf. destruct t as [|y t']; [reflexivity|]. cbn. inversion Hall; subst.
+    now replace (c <? y) with true by (symmetry; apply N.ltb_lt; assumption).
+  - destruct Hin as [->|Hin]; [rewrite N.eqb_refl in E; discriminate|]. cbn [sorted_insert].
+    rewrite Forall_forall in Hall. specialize (Hall c Hin). replace (c <? h) with false by (symmetry; apply N.ltb_ge; lia).
+    f_equal. apply IH; assumption.
+Qed.
+
+Lemma GraphInv_add_rem_edge w src sa c d db :
+  GraphInv w -> arch_at w src = Some sa -> In c (a_comps sa) ->
+  arch_at w d = Some db -> a_comps db = filter (fun x => negb (x =? c)) (a_comps sa) ->
+  GraphInv (upd_arch w src (fun a => set_edges a (a_ins a) (ainsert c d (a_rem a)))).
+Proof.
+  intros (Hs & Hb1 & Hb2 & Hi & Hr & Hso) Ha Hin Hd Hdc. unfold upd_arch. unfold arch_at in Ha. rewrite Ha.
+  set (sa' := set_edges sa (a_ins sa) (ainsert c d (a_rem sa))).
+  assert (Hat : forall j, arch_at (set_archs w (slab_set (w_archs w) src sa')) j = if j =? src then Some sa' else arch_at w j).
+  { intros j. unfold arch_at. cbn [w_archs set_archs]. destruct (j =? src) eqn:E.
+    - apply N.eqb_eq in E. subst j. eapply slab_get_set_eq; eauto.
+    - apply N.eqb_neq in E. now rewrite slab_get_set_neq by auto. }
+  assert (Hcomp : forall j b, arch_at (set_archs w (slab_set (w_archs w) src sa')) j = Some b -> exists b0, arch_at w j = Some b0 /\ a_comps b0 = a_comps b /\ a_ins b0 = a_ins b).
+  { intros j b Hj. rewrite Hat in Hj. destruct (j =? src) eqn:E.
+    - apply N.eqb_eq in E. subst j. inversion Hj; subst b. exists sa. unfold arch_at. rewrite Ha. repeat split.
+    - exists b. auto. }
+  assert (Hlive : forall j b0, arch_at w j = Some b0 -> exists b, arch_at (set_archs w (slab_set (w_archs w) src sa')) j = Some b /\ a_comps b = a_comps b0).
+  { intros j b0 Hj. rewrite Hat. destruct (j =? src) eqn:E.
+    - apply N.eqb_eq in E. subst j. unfold arch_at in Hj. rewrite Ha in Hj. inversion Hj; subst. eauto.
+    - eauto. }
+  unfold GraphInv. split; [cbn [w_archs set_archs]; eapply slab_set_inv; eauto|]. split; [|split; [|split; [|split]]].
+  - intros ai a Hai. destruct (Hcomp _ _ Hai) as (b0 & Hb0 & Hc0 & _). rewrite <- Hc0. unfold aby_lookup. cbn [w_aby set_archs]. exact (Hb1 _ _ Hb0).
+  - intros cs ai Hl. assert (Hl' : aby_lookup w cs = Some ai) by exact Hl. destruct (Hb2 _ _ Hl') as (a0 & Ha0 & Hc0).
+    destruct (Hlive _ _ Ha0) as (b & Hb & Hcb). exists b. split; [exact Hb|congruence].
+  - intros ai a c0 d0 Hai He. destruct (Hcomp _ _ Hai) as (b0 & Hb0 & Hc0 & Hi0). rewrite <- Hi0 in He.
+    destruct (Hi _ _ _ _ Hb0 He) as (Hn & b1 & Hb1' & Hc1). rewrite <- Hc0. split; [exact Hn|].
+    destruct (Hlive _ _ Hb1') as (b & Hb & Hcb). exists b. split; [exact Hb|congruence].
+  - intros ai a c0 d0 Hai He. rewrite Hat in Hai. destruct (ai =? src) eqn:E.
+    + apply N.eqb_eq in E. subst ai. inversion Hai; subst a. subst sa'. cbn [a_rem a_comps set_edges] in *.
+      destruct (N.eq_dec c0 c) as [->|Hne].
+      * rewrite alookup_ainsert_eq in He. inversion He; subst d0. split; [exact Hin|].
+        destruct (Hlive _ _ Hd) as (b & Hb & Hcb). exists b. split; [exact Hb|congruence].
+      * rewrite alookup_ainsert_neq in He by exact Hne. unfold arch_at in Hr. destruct (Hr _ _ _ _ Ha He) as (Hn & b0 & Hb0 & Hc0).
+        split; [exact Hn|]. destruct (Hlive _ _ Hb0) as (b & Hb & Hcb). exists b. split; [exact Hb|congruence].
+    + destruct (Hr _ _ _ _ Hai He) as (Hn & b0 & Hb0 & Hc0). split; [exact Hn|].
+      destruct (Hlive _ _ Hb0) as (b & Hb & Hcb). exists b. split; [exact Hb|congruence].
+  - intros ai a Hai. destruct (Hcomp _ _ Hai) as (b0 & Hb0 & Hc0 & _). rewrite <- Hc0. eauto.
+Qed.
+
+Lemma GraphInv_create_rem w src sa c :
+  GraphInv w -> arch_at w src = Some sa -> In c (a_comps sa) ->
+  aby_lookup w (filter (fun x => negb (x =? c)) (a_comps sa)) = None ->
+  let r := create_arch w (filter (fun x => negb (x =? c)) (a_comps sa)) [(c, src)] [] in
+  GraphInv (snd r) /\ fst r <> src /\ arch_at (snd r) src = Some sa /\
+  exists a1, arch_at (snd r) (fst r) = Some a1 /\ a_comps a1 = filter (fun x => negb (x =? c)) (a_comps sa) /\ a_rows a1 = [].
+Proof.
+  intros (Hs & Hb1 & Hb2 & Hi & Hr & Hso) Ha Hin Hnone. cbn zeta.
+  set (cs := filter (fun x => negb (x =? c)) (a_comps sa)) in *.
+  destruct (create_arch_spec w cs [(c, src)] []) as (a1 & (C1 & C2 & C3 & C4 & C5) & Hfst & Harchs & Hents & Haby).
+  cbn [a_comps a_rows a_ins a_rem a_cap] in *.
+  set (w1 := snd (create_arch w cs [(c, src)] [])) in *. set (d := fst (create_arch w cs [(c, src)] [])) in *.
+  destruct (slab_insert_spec (w_archs w) a1 Hs) as (Hnew & Hold & Hoth & Hs1). rewrite <- Hfst in Hnew, Hold, Hoth.
+  assert (Hat : forall j, arch_at w1 j = if j =? d then Some a1 else arch_at w j).
+  { intros j. unfold arch_at. rewrite Harchs. destruct (j =? d) eqn:E; [apply N.eqb_eq in E; subst j; exact Hnew|apply N.eqb_neq in E; now apply Hoth]. }
+  assert (Hlive_ne : forall j b, arch_at w j = Some b -> j <> d) by (intros j b Hj ->; unfold arch_at in Hj; congruence).
+  assert (Hlook : forall cs', aby_lookup w1 cs' = match aby_lookup w cs' with Some ai => Some ai | None => if list_eqb N.eqb cs cs' then Some d else None end).
+  { intros cs'. rewrite (aby_lookup_snoc w w1 cs d cs'); [reflexivity|]. rewrite Haby. now rewrite Hfst. }
+  assert (Hdsrc : d <> src) by (intros E; eapply Hlive_ne; eauto).
+  assert (Hsorted : StronglySorted N.lt (a_comps sa)) by (eapply Hso; eauto).
+  split; [|split; [exact Hdsrc|split]].
+  - unfold GraphInv. split; [now rewrite Harchs|]. split; [|split; [|split; [|split]]].
+    + intros ai a Hai. rewrite Hat in Hai. rewrite Hlook. destruct (ai =? d) eqn:E.
+      * apply N.eqb_eq in E. subst ai. inversion Hai; subst a. rewrite C1. fold cs. rewrite Hnone.
+        now replace (list_eqb N.eqb cs cs) with true by (symmetry; now apply list_eqb_N_spec).
+      * now rewrite (Hb1 _ _ Hai).
+    + intros cs' ai Hl. rewrite Hlook in Hl. destruct (aby_lookup w cs') as [ai0|] eqn:El.
+      * inversion Hl; subst ai0. destruct (Hb2 _ _ El) as (a0 & Ha0 & Hc0). exists a0. split; [|exact Hc0].
+        rewrite Hat. replace (ai =? d) with false by (symmetry; apply N.eqb_neq; eapply Hlive_ne; eauto). exact Ha0.
+      * destruct (list_eqb N.eqb cs cs') eqn:Ec; [|discriminate]. inversion Hl; subst ai. apply list_eqb_N_spec in Ec. subst cs'.
+        exists a1. split; [rewrite Hat, N.eqb_refl; reflexivity|exact C1].
+    + intros ai a c0 d0 Hai He. rewrite Hat in Hai. destruct (ai =? d) eqn:E.
+      * inversion Hai; subst a. rewrite C3 in He. cbn [alookup] in He. destruct (c0 =? c) eqn:Ec; [|discriminate].
+        apply N.eqb_eq in Ec. subst c0. inversion He; subst d0. rewrite C1. split; [apply filter_notin|].
+        exists sa. split; [rewrite Hat; replace (src =? d) with false by (symmetry; apply N.eqb_neq; auto); exact Ha|].
+        unfold cs. now rewrite sorted_insert_filter.
+      * destruct (Hi _ _ _ _ Hai He) as (Hn & b & Hb & Hc). split; [exact Hn|]. exists b. split; [|exact Hc].
+        rewrite Hat. replace (d0 =? d) with false by (symmetry; apply N.eqb_neq; eapply Hlive_ne; eauto). exact Hb.
+    + intros ai a c0 d0 Hai He. rewrite Hat in Hai. destruct (ai =? d) eqn:E.
+      * inversion Hai; subst a. rewrite C4 in He. discriminate.
+      * destruct (Hr _ _ _ _ Hai He) as (Hn & b & Hb & Hc). split; [exact Hn|]. exists b. split; [|exact Hc].
+        rewrite Hat. replace (d0 =? d) with false by (symmetry; apply N.eqb_neq; eapply Hlive_ne; eauto). exact Hb.
+    + intros ai a Hai. rewrite Hat in Hai. destruct (ai =? d) eqn:E; [|eauto]. inversion Hai; subst a. rewrite C1. unfold cs. now apply filter_sorted.
+  - rewrite Hat. replace (src =? d) with false by (symmetry; apply N.eqb_neq; auto). exact Ha.
+  - exists a1. split; [rewrite Hat, N.eqb_refl; reflexivity|]. split; [exact C1|exact C2].
+Qed.
+
+(* traverse_remove (archetype.rs:282-350) *)
+Theorem traverse_remove_ok w src sa c :
+  StoreInv w -> GraphInv w -> arch_at w src = Some sa ->
+  exists d w1, traverse_remove w src c = ROk d w1 /\ StoreInv w1 /\ GraphInv w1 /\
+    (forall e k, abs w1 e k = abs w e k) /\ w_ents w1 = w_ents w /\
+    (exists sa1, arch_at w1 src = Some sa1 /\ a_comps sa1 = a_comps sa /\ a_rows sa1 = a_rows sa) /\
+    (~ In c (a_comps sa) -> d = src) /\
+    (In c (a_comps sa) -> d <> src /\ exists da, arch_at w1 d = Some da /\ a_comps da = filter (fun x => negb (x =? c)) (a_comps sa)) /\
+    (forall cs ai, aby_lookup w cs = Some ai -> aby_lookup w1 cs = Some ai).
+Proof.
+  intros Hst Hg Ha. pose proof Hg as (Hs & Hb1 & Hb2 & Hi & Hr & Hso).
+  unfold traverse_remove. unfold arch_at in Ha. rewrite Ha.
+  destruct (alookup c (a_rem sa)) as [d|] eqn:Ee.
+  - destruct (Hr _ _ _ _ Ha Ee) as (Hn & b & Hb & Hc).
+    exists d, w. split; [reflexivity|]. split; [exact Hst|]. split; [exact Hg|]. split; [reflexivity|]. split; [reflexivity|].
+    split; [exists sa; auto|]. split; [intros X; contradiction|]. split; [|auto]. intros _. split; [|eauto].
+    intros ->. unfold arch_at in Hb. rewrite Ha in Hb. inversion Hb; subst b. pose proof (filter_length_lt c (a_comps sa) Hn) as Hl. rewrite <- Hc in Hl. lia.
+  - destruct (arch_has sa c) eqn:Eh; cbn [negb].
+    + apply arch_has_in in Eh.
+      destruct (aby_lookup w (filter (fun x => negb (x =? c)) (a_comps sa))) as [d|] eqn:El.
+      * destruct (Hb2 _ _ El) as (db & Hdb & Hdc).
+        exists d, (upd_arch w src (fun a => set_edges a (a_ins a) (ainsert c d (a_rem a)))). split; [reflexivity|].
+        pose proof (upd_arch_at w src sa (fun a => set_edges a (a_ins a) (ainsert c d (a_rem a))) Ha) as Hat.
+        assert (Hds : d <> src).
+        { intros ->. unfold arch_at in Hdb. rewrite Ha in Hdb. inversion Hdb; subst db. pose proof (filter_length_lt c (a_comps sa) Eh) as Hl. rewrite <- Hdc in Hl. lia. }
+        split; [unfold upd_arch; rewrite Ha; eapply StoreInv_replace; eauto|].
+        split; [eapply GraphInv_add_rem_edge; eauto|].
+        split; [intros e k; unfold upd_arch; rewrite Ha; eapply abs_replace; eauto|].
+        split; [unfold upd_arch; rewrite Ha; reflexivity|].
+        split; [eexists; split; [rewrite Hat, N.eqb_refl; reflexivity|split; reflexivity]|].
+        split; [intros X; contradiction|]. split; [|intros cs0 ai0 X; now rewrite aby_lookup_upd_arch]. intros _. split; [exact Hds|]. exists db. split; [|exact Hdc].
+        rewrite Hat. now replace (d =? src) with false by (symmetry; apply N.eqb_neq; exact Hds).
+      * destruct (GraphInv_create_rem w src sa c Hg Ha Eh El) as (Hg1 & Hds & Hsrc1 & a1 & Ha1 & Hc1 & Hr1).
+        destruct (create_arch_spec w (filter (fun x => negb (x =? c)) (a_comps sa)) [(c, src)] []) as (a1' & Hcore & Hfst & Harchs & Hents & Haby).
+        destruct (create_arch w (filter (fun x => negb (x =? c)) (a_comps sa)) [(c, src)] []) as [d w1] eqn:Ecr. cbn [fst snd] in *.
+        assert (Hst1 : StoreInv w1).
+        { eapply (StoreInv_ext (set_archs w (slab_insert (w_archs w) a1'))); [exact Hents|exact Harchs|].
+          apply StoreInv_add_empty; [exact Hst|exact Hs|]. destruct Hcore as (_ & H2 & _). exact H2. }
+        assert (Habs1 : forall e k, abs w1 e k = abs w e k).
+        { intros e k. rewrite (abs_ext (set_archs w (slab_insert (w_archs w) a1')) w1 Hents Harchs). now apply abs_add_empty. }
+        exists d, (upd_arch w1 src (fun a => set_edges a (a_ins a) (ainsert c d (a_rem a)))). split; [reflexivity|].
+        pose proof (upd_arch_at w1 src sa (fun a => set_edges a (a_ins a) (ainsert c d (a_rem a))) Hsrc1) as Hat.
+        split; [unfold upd_arch; unfold arch_at in Hsrc1; rewrite Hsrc1; eapply StoreInv_replace; eauto|].
+        split; [eapply GraphInv_add_rem_edge; eauto|].
+        split; [intros e k; unfold upd_arch; unfold arch_at in Hsrc1; rewrite Hsrc1; rewrite (abs_replace w1 src sa _ Hsrc1) by reflexivity; apply Habs1|].
+        split; [unfold upd_arch; unfold arch_at in Hsrc1; rewrite Hsrc1; exact Hents|].
+        split; [eexists; split; [rewrite Hat, N.eqb_refl; reflexivity|split; reflexivity]|].
+        split; [intros X; contradiction|]. split; [|intros cs0 ai0 X; rewrite aby_lookup_upd_arch; eapply aby_lookup_mono_app; [exact Haby|exact X]].
+        intros _. split; [exact Hds|]. exists a1. split; [|exact Hc1].
+        rewrite Hat. now replace (d =? src) with false by (symmetry; apply N.eqb_neq; exact Hds).
+    + assert (Hnin : ~ In c (a_comps sa)) by (intros X; apply arch_has_in in X; congruence).
+      exists src, w. split; [reflexivity|]. split; [exact Hst|]. split; [exact Hg|]. split; [reflexivity|]. split; [reflexivity|].
+      split; [exists sa; auto|]. split; [reflexivity|]. split; [intros X; contradiction|auto].
 Qed.
